@@ -41,6 +41,32 @@ CHECKS.update({
          'Every stop position k=0..N+1 of small PBF and XML inputs x stop kind (Close, cancel from the scanning goroutine, cancel from a concurrent goroutine overlapping further Scans) x decoder count is executed and its call history checked for linearizability against a 60-line sequential scanner model; counting readers measure what is consumed after the stop (300-block files) and an endless reader with a logical byte budget turns never-stops-reading into a counted observation; goroutine dumps after Close/cancel; cancellations issued from the reader callback or a timer while the consumer is slow or waiting run under the race detector; histories with an injected I/O error check the error precedence.',
          'trusted: porcupine v1.3.0, Go race detector, the 25% read-ahead allowance. Interleavings are sampled; a watchdog firing with runnable goroutines is inconclusive.'),
 })
+CHECKS.update({
+ 'C03': ('exploration', 'reference-model monitor: independent OSM-XML writer with layout noise, whole-document decode and streaming scanner compared with the model and with each other',
+         'Documents are written from a model with explicit document order by a writer that shares nothing with the library (150 optional features, 12 noise classes: attribute order, whitespace, comments, PIs, CDATA, self-closing vs paired tags, unknown attributes/elements, entity and character-reference escaping); xml.Unmarshal into OSM/Change/Diff and osmxml.Scanner (chunked reader) must both equal the model, and each other kind by kind.',
+         'trusted: the harness XML writer and Go encoding/xml tokenisation. Unknown wrapper elements around OSM-named elements at container level are not generated (ambiguous). "]]>" inside attribute values is a Go encoding/xml limit: probed, not asserted.'),
+ 'C04': ('exploration', 'round-trip monitor (xml.Marshal -> xml.Unmarshal / osmxml.Scanner) with a vocabulary checker over the marshalled tokens',
+         'Generated values of all seven object kinds and OSM/Change/Diff containers, including top-level bounds in OSM and in every osmChange block and all annotations, are marshalled, tokenised against an OSM XML vocabulary table, unmarshalled and compared with the original (canonical dump), and read back by the streaming scanner. Every violation is shrunk to a single-feature input.',
+         'trusted: eq.Dump equality (empty discussion == nil by design of the marshaller; note dates have whole seconds). Strings restricted to XML 1.0 characters.'),
+ 'C05': ('exploration', 'shape monitor on generic JSON parse + round trip + independently written osmjson documents, under default and recording user-installed codec',
+         'osm.OSM/Change/element values are marshalled and shape-checked on a generic parse (elements[], type, tags object, nodes id array, members never null), round-tripped, and independently written osmjson documents (version number/string/absent, unknown keys, noise) are unmarshalled and compared with the model up to tag order and way-node annotations; every step runs under the default codec and under a recording harness codec installed through the public Custom JSON hooks (also marshaler-only / unmarshaler-only), results must be equal and the hooks consulted.',
+         'trusted: the harness JSON text writer; json-iterator cannot run on this toolchain (reflect2 crash) so the installed codec is a harness type over encoding/json. Tags.UnmarshalJSON bypassing the installed unmarshaler is recorded, not asserted (results equal).'),
+ 'C11': ('exploration', 'reference-model monitor over generated edit histories + independent time-travel oracle (ApplyUpdatesUpTo on clones)',
+         'annotate.Ways/Relations run on generated histories (commit-time and timestamp+threshold regimes, repeats, deletions, children entering/leaving, same-instant edits, options, filters); annotated children, update lists and error classes are compared with an independent reference (strict on well-separated histories, acceptable-set oracle on mixed windows), and for sampled t every child after ApplyUpdatesUpTo(t) must be the version current at t.',
+         'trusted: the reference model in internal/hist (~400 lines). Mixed threshold windows and versions on the next parent\'s instant are only checked permissively; mixed-regime histories are run, not asserted.'),
+ 'C12': ('exploration', 'determinism monitor: 12 runs on deep clones with the datasource recording map-iteration order + update-order oracle',
+         'Each input is annotated 12 times on deep clones; all runs must succeed with identical canonical dumps or all fail; every update list must be ordered by (index, time, version). The recording datasource exposes the iteration order of the child map, so the evidence reports how many distinct hash orders were actually seen. Workloads are biased to same-second versions, repeated children and >12 updates per parent, plus an enumerated (versions-in-one-second x indexes) grid.',
+         'trusted: eq.Clone/eq.Dump. Hash orders are sampled (up to 12 per input), not enumerated.'),
+ 'C16': ('exploration', 'ground-truth generator with exact integer geometry predicates; oracle over Convert output and annotate orientations across four input variants',
+         'Ground-truth polygon sets (1-4 outers, 0-3 holes, validated by the generator\'s own exact predicates) are cut, reversed and shuffled; the converted feature must be exactly the truth\'s rings (cyclic vertex sequence, closed, outer CCW / inner CW by own signed area, each outer with exactly its holes), identical across node-object vs way-node coordinates and with/without orientation annotations, and annotate.Relations must mark each way with its true direction. Small n-gons are enumerated over every cut set x reversal mask x member permutation.',
+         'trusted: the generator\'s int64 predicates (self-tested). Normalised across variants: ring start vertex, hole order, polygon order only.'),
+ 'C17': ('exploration', 'reference-rule monitor over generated data sets x all 16 option sets, with determinism (byte-identical JSON) and input-immutability snapshots',
+         'Each data set is converted under all 16 option combinations three times; the FeatureCollection JSON is checked against an independent reference of the documented rules (one feature per element at most, type/id/tags/meta/memberships, node rule both directions, way coordinates / closed CCW rings, route edge multiset), each option must remove exactly its documented key, repeats must be byte-identical and the input must equal its deep snapshot.',
+         'trusted: the reference rules in c17.go. Grey zones (run, counted, not asserted): way vertex at (0,0) for unlocated nodes, negative ids, an outer way shared by two tagless multipolygons.'),
+ 'C20': ('exploration', 'fake API v0.6 server (httptest) logging every request with one atomic sequence shared with the rate-limiter monitor',
+         'Every endpoint x arguments x options x base URL x limiter mode x status/body is called against a local server that records method, path and query; the oracle checks exactly one GET to the documented path (queries as parameter sets, bbox numerically), limiter Wait ordered before the request and no request after a limiter error, returned elements equal to what the server wrote (independent XML writer), status-to-typed-error mapping with NotFound only for 404, no partial data with an error, and exactly-one-element calls. Thorough enumerates the whole product.',
+         'trusted: the endpoint table written from the API v0.6 documentation. bbox decimals beyond 1e-6 are not asserted (the statement promises no precision).'),
+})
 PENDING = 'check not built yet in this revision of /verif (planned in DESIGN.md section 4); no verdict is claimed'
 
 checks, na = [], []
